@@ -1705,3 +1705,68 @@ def mutate_public(obj: Any, depth: int = 3) -> int:
         else:
             n += mutate_public(cur, depth - 1)
     return n
+
+# --------------------------------------------------------------------------------------------
+# value-directed corruptions: the burst is chosen by what the corrupted window READS AS, not by its error pattern. A random
+# burst makes a given 16-bit window read as one particular value once in 65 535 draws, so a decoder that treats a
+# distinguished received value specially (a trailer of 0x0000 taken for "no checksum", an all-ones word taken for "not
+# set", an empty slice) is never exercised by random sampling. Pure functions of the octets; the caller filters the
+# windows that lie outside its property's domain.
+# --------------------------------------------------------------------------------------------
+from typing import Tuple  # noqa: E402  (helpers are appended at the end of this file)
+
+
+def directed_burst(raw: bytes, octet: int, width: int, value: int, max_bits: int = 16) -> Optional[Tuple[int, str]]:
+    """the burst (bit offset, pattern over 0/1 with both end bits set; bit 0 = msb of octet 0) which makes the octets
+    [octet, octet+width) of `raw` read as the big-endian `value`. None if they already read so, if the window does not
+    lie in `raw`, or if the burst would be longer than `max_bits`."""
+    if octet < 0 or width <= 0 or octet + width > len(raw) or not 0 <= value < (1 << (8 * width)):
+        return None
+    x = int.from_bytes(raw[octet:octet + width], "big") ^ value
+    if x == 0:
+        return None
+    bits = format(x, f"0{8 * width}b")
+    lead = len(bits) - len(bits.lstrip("0"))
+    pat = bits.strip("0")
+    if len(pat) > max_bits:
+        return None
+    return 8 * octet + lead, pat
+
+
+TRAILER_VALUES16 = (0x0000, 0xFFFF, 0x0001, 0x8000, 0x0100, 0x0080)
+
+
+def value_directed_bursts(raw: bytes, windows: Optional[Iterable[int]] = None, trailer_len: int = 2,
+                          trailer_values: Iterable[int] = TRAILER_VALUES16,
+                          window_values: Iterable[int] = (0x0000, 0xFFFF),
+                          octet_values: Iterable[int] = (0x00, 0xFF)) -> List[Tuple[int, str, str]]:
+    """[(bit offset, pattern, label)], without duplicates, of the bursts of at most 16 bits after which
+      * the trailer (last `trailer_len` octets) reads as each of `trailer_values` ("trailer=0000", ...), its first / its
+        last octet reads as 00 / ff ("trailer-first=00", ...), the octet in front of it reads as 00 / ff;
+      * the byte-aligned 16-bit word at each octet index of `windows` (None: every index) reads as each of
+        `window_values` ("word@12=ffff"), and the single octet there reads as each of `octet_values` ("octet@12=00").
+    Windows that already read as the value are left out (nothing would be corrupted)."""
+    n = len(raw)
+    out: List[Tuple[int, str, str]] = []
+    seen = set()
+
+    def add(octet, width, value, label):
+        b = directed_burst(raw, octet, width, value)
+        if b is not None and b not in seen:
+            seen.add(b)
+            out.append((b[0], b[1], label))
+    if n >= trailer_len > 0:
+        t = n - trailer_len
+        for v in trailer_values:
+            if v < (1 << (8 * trailer_len)):
+                add(t, trailer_len, v, f"trailer={v:0{2 * trailer_len}x}")
+        for v in (0x00, 0xFF):
+            add(t, 1, v, f"trailer-first={v:02x}")
+            add(n - 1, 1, v, f"trailer-last={v:02x}")
+            add(t - 1, 1, v, f"before-trailer={v:02x}")
+    for i in (range(n - 1) if windows is None else windows):
+        for v in window_values:
+            add(i, 2, v, f"word@{i}={v:04x}")
+        for v in octet_values:
+            add(i, 1, v, f"octet@{i}={v:02x}")
+    return out
